@@ -94,6 +94,7 @@ structure TopState where
   jx : JXState := {}
   mi : MiscState := {}
   ix : IdxcState := {}
+  inf : InfState := {}
 
 def stepTop (t : TopState) (toks : List String) : TopState × String :=
   match toks with
@@ -104,6 +105,9 @@ def stepTop (t : TopState) (toks : List String) : TopState × String :=
     else if stream.startsWith "misc" then
       let r := stepMisc {} toks
       ({ mode := 4, mi := r.1 }, r.2)
+    else if stream.startsWith "inf" then
+      let r := stepInf {} toks
+      ({ mode := 6, inf := r.1 }, r.2)
     else if stream.startsWith "idxc" then
       let r := stepIdxc {} toks
       ({ mode := 5, ix := r.1 }, r.2)
@@ -132,6 +136,9 @@ def stepTop (t : TopState) (toks : List String) : TopState × String :=
     else if t.mode == 5 then
       let r := stepIdxc t.ix toks
       ({ t with ix := r.1 }, r.2)
+    else if t.mode == 6 then
+      let r := stepInf t.inf toks
+      ({ t with inf := r.1 }, r.2)
     else
       let r := stepAll t.a toks
       ({ t with a := r.1 }, r.2)
